@@ -328,7 +328,7 @@ func c03Run(c *core.Ctx) {
 	// A. generic: driver-valid corpus programs and their lexeme alternatives
 	level := 2
 	if c.Thorough() {
-		level = 4
+		level = 5
 	}
 	for _, fam := range []string{"php7", "php5"} {
 		f := corpus.MustFam(fam)
@@ -343,7 +343,7 @@ func c03Run(c *core.Ctx) {
 				c03One(c, cs)
 				c.Sample(cs)
 			}
-			if !it.AsIntended || countSub(it.Why, "child") > 1 {
+			if !it.AsIntended || (!c.Thorough() && countSub(it.Why, "child") > 1) {
 				continue
 			}
 			for i, t := range it.Toks {
